@@ -78,11 +78,7 @@ impl<T: Bounded> BVH<T> {
         // Nodos pendientes
         let mut pending: Vec<TreeElement<T>> = Vec::new();
         // Nodos procesados (2*n-1 nodos con n terminales)
-        let expected_num_nodes = if elements.is_empty() {
-            2 * (elements.len() / max_num_elements) - 1
-        } else {
-            0
-        };
+        let expected_num_nodes = 2 * (elements.len() / max_num_elements) + 1;
         let mut node_list: Vec<TreeElement<T>> = Vec::with_capacity(expected_num_nodes);
 
         let mut id: NodeId = 0;
